@@ -27,6 +27,16 @@ GbCases == UNION {{<<sn, ms, [k |-> "none", i |-> 0]>> : ms \in MutSeqs(Seeds[sn
            \cup UNION {{<<"s1", <<m>>, b>> : b \in {[k |-> "trunc", i |-> Len(ApplyMut(Seeds["s1"], m))]}} : m \in {x \in MutsOf(Seeds["s1"]) : x.a = "replace"}}
            \* a two-record stream (the seed appended to itself) cut inside every line of the SECOND record
            \cup {<<"s1", <<[a |-> "append", i |-> 0, v |-> ""]>>, [k |-> "trunc", i |-> i]>> : i \in (Len(Seed1) + 1)..(2 * Len(Seed1))}
+           \* buffer alignment: an over-long / over-short ORIGIN block whose end takes every offset modulo the
+           \* reader's 4096-byte buffer (the harness inserts a COMMENT continuation line of every length 0..4300)
+           \cup {<<"s1", <<[a |-> "replace", i |-> 1, v |-> v]>>, [k |-> "pad", i |-> 18]>> : v \in {"declare-less", "declare-more"}}
+           \cup {<<"s1", <<>>, [k |-> "pad", i |-> 18]>>}
+           \* the text handed to the scanner in two reads, cut at every offset (every seed; Seed1 also with a wrong
+           \* declared length, an empty DBLINK value and a shrunk ORGANISM sub-field)
+           \cup {<<sn, <<>>, [k |-> "split", i |-> 0]>> : sn \in {"s1", "s2", "sf"}}
+           \cup {<<"s1", <<[a |-> "replace", i |-> 1, v |-> v]>>, [k |-> "split", i |-> 0]>> : v \in {"declare-less", "declare-more"}}
+           \cup {<<"s1", <<[a |-> "replace", i |-> 6, v |-> "dblink-empty"]>>, [k |-> "split", i |-> 0]>>,
+                 <<"s1", <<[a |-> "replace", i |-> 10, v |-> "sub-shrunk"]>>, [k |-> "split", i |-> 0]>>}
 GbSeq == SetToSeq(GbCases)
 
 \* small grammars: token strings
@@ -49,7 +59,18 @@ StrOf(toks, c, n) == IF n = 0 THEN "" ELSE StrOf(toks, c \div Len(toks), n - 1) 
 RECURSIVE Pw(_, _)
 Pw(b, n) == IF n = 0 THEN 1 ELSE b * Pw(b, n - 1)
 GrStrings(g) == UNION {{StrOf(GrammarTokens[g], c, n) : c \in 0..(Pw(Len(GrammarTokens[g]), n) - 1)} : n \in 0..MaxTok}
-GrSeq == SetToSeq(UNION {{<<g, s>> : s \in GrStrings(g)} : g \in {Grammars[j] : j \in 1..Len(Grammars)}})
+\* longer location strings than the token enumeration reaches: descending, empty and contiguous-but-inverted
+\* ranges inside joins (merged by the reduction), deep nesting, huge numbers, stray punctuation
+LocProbes == {"join(7..3,4..1)", "join(2..1,2..1)", "join(5..4,5..2)", "order(1..2,join(<9..8,9..>3))", "3..1", "0", "0..0", "1..0",
+              "join()", "join(1)", "complement()", "join(1..2,)", "1.2.3", "1^3", "5^1", "<>1", "join(complement(join(1..2,3..4)),5)",
+              "99999999999999999999", "1..99999999999999999999", "-1", "join(1,1,1,1,1,1,1,1,1,1)", "complement(complement(complement(1)))",
+              "order(join(order(1,2),3),4)", "1..2..3", "(1..2)", "join(1..2;3..4)", "join(3..1,1..3)", "join(1..3,3..1)", "join(<1..>1,<1..>1)",
+              "complement(join(9..7,7..5))", "join(1^2,2..1)", "join(4..6,7..5)", "order(2..1)", "join(1.5,3.2)", "join(2.1,1..2)"}
+FtProbes == {"     gene            join(7..3,4..1)\n", "     gene            join(2..1,2..1)\n                     /gene=\"x\"\n",
+             "     gene            3..1\n     CDS             join(5..4,5..2)\n"}
+GrSeq == SetToSeq(UNION {{<<g, s>> : s \in GrStrings(g)} : g \in {Grammars[j] : j \in 1..Len(Grammars)}}
+                  \cup {<<"location", s>> : s \in LocProbes} \cup {<<"locator", s>> : s \in LocProbes}
+                  \cup {<<"locator", s \o "@^-2..$+2">> : s \in LocProbes} \cup {<<"ftable", s>> : s \in FtProbes})
 
 NItems == IF Mode = "genbank" THEN Len(GbSeq) ELSE (Len(GrSeq) + Batch - 1) \div Batch
 Picked == SelectSeq([j \in 1..NItems |-> j], LAMBDA j : j % Stride = Offset % Stride)
